@@ -57,7 +57,8 @@ CommasOK(ip) ==
   ELSE LET first == CHOOSE i \in cs : \A j \in cs : i <= j IN
        /\ first >= 2 /\ first <= 4
        /\ \E i \in 1..(first - 1) : IsDigit(ip[i]) /\ DigitVal(ip[i]) # 0
-       /\ \A i \in 1..Len(ip) : IF i \in cs THEN (i - first) % 4 = 0 ELSE IsDigit(ip[i])
+       \* a separator exactly at every fourth position from the first one, digits everywhere else
+       /\ \A i \in 1..Len(ip) : IF i >= first /\ (i - first) % 4 = 0 THEN i \in cs ELSE (i \notin cs /\ IsDigit(ip[i]))
        /\ (Len(ip) - first) % 4 = 3
 
 CoefOK(t) == /\ Len(t) > 0 /\ Cardinality(PointPositions(t)) <= 1
